@@ -7,6 +7,7 @@
    Print Assumptions. *)
 From Coq Require Import List ZArith.
 From MirV Require Import C03.Thunk C03.ThunkBytesProofs C03.ThunkProofs C03.ArgPass C03.ArgPassProofs.
+From MirV Require Import C03.CodePatch C03.CodePatchProofs.
 Local Open Scope Z_scope.
 
 (* _MIR_redirect_thunk followed by a jump to the thunk lands on `to`, for either encoding
@@ -187,6 +188,42 @@ Theorem argument_locations_oversize_block_refuted :
   exists ps, wf_params ps = false /\ va_walk ps <> ff_walk ps.
 Proof. exact oversize_block_refuted. Qed.
 Print Assumptions argument_locations_oversize_block_refuted.
+
+(* Round 3 (wave z).  Patching published machine code (coq/C03/CodePatch.v): the mem_protect request of
+   _MIR_change_code -- the primitive under _MIR_redirect_thunk, _MIR_replace_bb_thunk, the call-site rewriting of
+   change_calls / target_change_to_direct_calls and the branch patching of lazy-BB code -- starts at a page boundary and
+   makes exactly the pages writable that the patched bytes touch, wherever in a page they begin and also when they
+   straddle a page boundary. *)
+Theorem change_code_request_exact : forall page addr n, 0 < page ->
+  fst (change_code_region page addr n) mod page = 0
+  /\ protected page (change_code_region page addr n) = (page_down page addr, page_up page (addr + n)).
+Proof. exact change_code_exact. Qed.
+Print Assumptions change_code_request_exact.
+
+Theorem change_code_patch_writable : forall page addr n, 0 < page -> 0 <= n ->
+  writable page (change_code_region page addr n) addr n.
+Proof. exact change_code_covers. Qed.
+Print Assumptions change_code_patch_writable.
+
+(* ... and of _MIR_update_code_arr: every relocated word is writable, however far from the base the last one lies *)
+Theorem update_code_words_writable : forall page base offs off, 0 < page -> In off offs -> 0 <= off ->
+  writable page (update_code_region page base offs) (base + off) 8.
+Proof. exact update_code_covers. Qed.
+Print Assumptions update_code_words_writable.
+
+(* asking for the length of the patch from the page start is not enough *)
+Theorem change_code_short_request_refuted : exists page addr n,
+  0 < page /\ 0 < n /\ ~ writable page (page_down page addr, n) addr n.
+Proof. exact short_request_refuted. Qed.
+Print Assumptions change_code_short_request_refuted.
+
+(* a 6-byte call site that begins 3 bytes before a page boundary: two pages *)
+Example ex_straddling_patch :
+  change_code_region 4096 0x7f0000000ffd 6 = (0x7f0000000000, 4099)
+  /\ protected 4096 (change_code_region 4096 0x7f0000000ffd 6) = (0x7f0000000000, 0x7f0000002000)
+  /\ protected 4096 (change_code_region 4096 0x7f0000000ffa 6) = (0x7f0000000000, 0x7f0000001000)
+  /\ update_code_region 4096 0x7f0000000010 (8 :: 0x2ff8 :: 0x100 :: nil) = (0x7f0000000000, 0x3010).
+Proof. vm_compute. repeat split. Qed.
 
 (* ---- non-vacuity: concrete histories the hypotheses are met by ---- *)
 Import ListNotations.
